@@ -286,6 +286,8 @@ def concrete_check(shape, rows, yrows, bind):
             cc0 = {c.qualified_name for c in o.binary.common_columns}
             if (colset & fc0) - cc0:
                 raise IllFormed(f"{o}: operands share columns {sorted((colset & fc0) - cc0)} that are not join columns")
+        if not isinstance(o, PartialJoin):
+            _py_apply([{c: 0 for c in colset}], o, yrows)  # the operation reads only columns that are there (also when no row is)
         new = _py_apply(rs, o, yrows)
         if isinstance(o, Calculation):
             colset = colset | {o.tag.qualified_name}
